@@ -186,6 +186,10 @@ FalsyOf(n) ==
   ELSE IF n = "Float" THEN [t |-> "F", v |-> 0]
   ELSE IF n = "Boolean" THEN Bool(FALSE)
   ELSE Str("")
+\* "dboom" at the path of a default-resolved field: reading the parent's attribute raises KeyError (one attribute per object:
+\* every response key reading it fails - the configurations using it have no aliases)
+DBoomBelow(C, path) == \E q \in DOMAIN C.overlay : C.overlay[q].o = "dboom" /\ Len(q) = Len(path) + 1 /\ SubSeq(q, 1, Len(path)) = path
+AttrBased(tn) == tn \in DOMAIN Types /\ Types[tn].way \in {"attr", "class"}
 HasOv(C, path, kind) == path \in DOMAIN C.overlay /\ C.overlay[path].o = kind
 
 RECURSIVE RawAt(_, _, _, _, _, _)
@@ -202,8 +206,12 @@ RawAt(C, t, path, parentId, fname, args) ==
      [r |-> "list", v |-> [i \in 1..2 |-> RawAt(C, Tail(t), Append(path, Idx(i - 1)), parentId, fname, args)]]
   ELSE IF IsComposite(Named(t)) THEN
      \* "emptyd": the object's default-resolved attribute `d` holds the empty string
-     [r |-> "obj", id |-> JoinPath(path), d |-> IF HasOv(C, path, "emptyd") THEN "" ELSE JoinPath(path) \o ".d",
-      tn |-> IF HasOv(C, path, "rt") THEN C.overlay[path].tn ELSE DefaultRT(Named(t), path)]
+     \* "dboom": reading the attribute `d` of the object raises KeyError (a property of an attribute-based object)
+     \*          (only objects of runtime types represented by attribute-based objects: a mapping without the key is simply null)
+     LET tn == IF HasOv(C, path, "rt") THEN C.overlay[path].tn ELSE DefaultRT(Named(t), path) IN
+     [r |-> "obj", id |-> JoinPath(path),
+      d |-> IF HasOv(C, path, "emptyd") THEN "" ELSE IF DBoomBelow(C, path) /\ AttrBased(tn) THEN "<raises>" ELSE JoinPath(path) \o ".d",
+      tn |-> tn]
   ELSE [r |-> "leaf", v |-> LeafRaw(Named(t), parentId, fname, args)]
 
 ------------------------------------------------------------------------------
@@ -256,9 +264,12 @@ ExecField(C, rt, entry, path, parentId) ==
   LET args == CoerceArgs(C, fdef, node) IN
   IF ~args.ok THEN Caught(fdef.type, me, [FailAt(me, entry[2]) EXCEPT !.pos = {Pos(me, fdef.type)}])
   ELSE LET raw  == IF fdef.res = "D" /\ HasOv(C, path, "emptyd") THEN [r |-> "leaf", v |-> Str("")]
+                   ELSE IF fdef.res = "D" /\ DBoomBelow(C, path) /\ AttrBased(rt) THEN [r |-> "raise"]
                    ELSE RawAt(C, fdef.type, me, parentId, fname, args.v)
            call == IF fdef.res = "R" THEN <<[path |-> me, parent |-> parentId, args |-> args.v, ret |-> raw]>> ELSE <<>>
-           here == IF fdef.res = "R" THEN {Pos(me, fdef.type)} ELSE {}
+           \* a default-resolved field of an attribute-based object is a position too (marked dres): reading the attribute may raise
+           here == IF fdef.res = "R" THEN {Pos(me, fdef.type)}
+                   ELSE IF AttrBased(rt) THEN {[path |-> me, type |-> fdef.type, dres |-> TRUE]} ELSE {}
            r    == Complete(SetFK(C, rt \o "." \o fname), fdef.type, raw, me, entry[2]) IN
        Caught(fdef.type, me, [r EXCEPT !.calls = call \o @, !.pos = here \cup @])
 
